@@ -106,7 +106,7 @@ func Decode(b []byte) (v Value, n int, st Status_, reason string) {
 // not content. Not safe for concurrent toggling; set once at start-up.
 var LaxIntegers = false
 
-const maxDepth = 1 << 20
+const maxDepth = 1 << 16 // the decoder recurses: keep its own stack far below the runtime limit
 
 func readLine(b []byte, off int) (line []byte, next int, st Status_, reason string) {
 	for i := off; i < len(b); i++ {
